@@ -171,6 +171,31 @@ class LoopSpec:
         assigned = self._assigned(st)
         return sorted(assigned - set(self.modifies) - set(extra))
 
+    def _iteration_temporaries(self, st, fr, names):
+        """Subset of `names` that cannot carry a value from one iteration to the next or out of the loop, so that the invariant need
+        not speak about them:  (a) the first top-level statement of the loop body that mentions the name is a plain assignment
+        `name = expr` whose right-hand side does not read it;  (b) the loop test / iterable does not mention it;  (c) it is not read
+        anywhere in the enclosing function outside this loop statement."""
+        func = getattr(getattr(fr, 'func', None), 'node', None)
+        if func is None or not names:
+            return set()
+
+        def mentions(node, nm):
+            return any(isinstance(n, ast.Name) and n.id == nm for n in ast.walk(node))
+        inside = {id(n) for n in ast.walk(st)}
+        out = set()
+        for nm in names:
+            head = st.test if isinstance(st, ast.While) else st.iter
+            if mentions(head, nm):
+                continue
+            if any(isinstance(n, ast.Name) and n.id == nm and isinstance(n.ctx, ast.Load) and id(n) not in inside for n in ast.walk(func)):
+                continue
+            first = next((b for b in st.body if mentions(b, nm)), None)
+            if (isinstance(first, ast.Assign) and len(first.targets) == 1 and isinstance(first.targets[0], ast.Name)
+                    and first.targets[0].id == nm and not mentions(first.value, nm)):
+                out.add(nm)
+        return out
+
     def _havoc_unknown(self, E, cx, fr, names):
         import z3 as _z3
         for nm in names:
@@ -193,6 +218,7 @@ class LoopSpec:
 
     def run_while(self, E, st, fr, cx):
         unknown = self._check_modifies(st)
+        unknown = [n for n in unknown if n not in self._iteration_temporaries(st, fr, unknown)]
         lab = self._label(fr, st)
         entry = dict(fr.locals)
         _inv_oblige(cx, self.inv(E, cx, fr.locals, entry), f'loop-init.{lab}', 'loop-init', st.lineno)
@@ -253,6 +279,7 @@ class LoopSpec:
         """for <target> in <symbolic sequence>: ghost index $i counts completed iterations."""
         tnames = {n.id for n in ast.walk(st.target) if isinstance(n, ast.Name)}
         unknown = self._check_modifies(st, extra=tnames)
+        unknown = [n for n in unknown if n not in self._iteration_temporaries(st, fr, unknown)]
         lab = self._label(fr, st)
         entry = dict(fr.locals)
         n_len = self.seq_len(E, cx, it)
